@@ -193,8 +193,10 @@ def run(prop: str, tier: str) -> int:
     elif prop == "C15":
         sts = shapes(rep, max_nodes=4 if quick else 5, k=2, label="typed-shapes")
         run_states(rep, prop, sts, "str+typed", {}, "c15")
+        run_states(rep, prop, sts if not quick else sts[::2], "keyed+typed", {}, "c15-eq")   # all data compare ==
         if not quick:
-            run_states(rep, prop, sts, "keyed+typed", {}, "c15-eq")
+            sts3 = shapes(rep, max_nodes=4, k=3, label="typed-shapes-3-kinds")
+            run_states(rep, prop, sts3, "str+typed", {}, "c15-k3")
     elif prop == "C08":
         sts = shapes(rep, max_nodes=4 if quick else 5, label="shapes", extra_inv=("InvFilter",), workers=16)
         o = {"full_max": 3 if quick else 5, "sample": 150, "seed": seed}
